@@ -58,7 +58,8 @@ class Half(jaxtyping.Float):  # derives from a BUILT-IN category and narrows it
 
 
 def shards(tier):
-    return [{"i": i} for i in range(NSHARDS)]
+    # every second shard is a process that imported jax / ml_dtypes / tensorflow-free numpy stack BEFORE jaxtyping
+    return [({"i": i, "import_first": ["jax", "ml_dtypes"]} if i % 2 else {"i": i}) for i in range(NSHARDS)]
 
 
 def required_counters(tier):
@@ -74,7 +75,7 @@ def required_counters(tier):
         "route.pickle": 400,
         "route.copy": 100,
         "route.deepcopy": 100, "roundtrips.two_hops": 300,
-        "loads_after_state_change": 30, "roundtrips.made_while_checking_disabled": 30, "sibling_loads_after_previous_copy_was_collected": 200,
+        "loads_after_state_change": 30, "roundtrips.made_while_checking_disabled": 30, "sibling_loads_after_previous_copy_was_collected": 200, "roundtrips.minimal_receiver": 100,
     }
 
 
@@ -250,6 +251,32 @@ def mech(expr, route, where, how):
 
 
 loaded_tmp = []
+MINIMAL_PROBE_NAMES = ["float8_e3m4(2,)", "float4_e2m1fn(2,)", "float8_e8m0fnu(2,)", "float8_e4m3fn(2,)", "bfloat16(2,)", "float32(2,)", "int8(2,)", "int4(2,)", "float32()", "float8_e3m4(2,3)"]
+MINIMAL_CHILD = """
+import base64, json, pickle, sys, warnings
+warnings.filterwarnings("ignore")
+loaded = {}
+for jid, b64 in json.load(open(sys.argv[1])):
+    try:
+        loaded[jid] = pickle.loads(base64.b64decode(b64))
+    except Exception as e:
+        loaded[jid] = e
+"""
+MINIMAL_PROBES = """
+def answers(ann):
+    import numpy as np, ml_dtypes
+    if isinstance(ann, Exception):
+        return ["load-raised:" + type(ann).__name__]
+    out = []
+    for dt, shape in (("float8_e3m4", (2,)), ("float4_e2m1fn", (2,)), ("float8_e8m0fnu", (2,)), ("float8_e4m3fn", (2,)), ("bfloat16", (2,)), ("float32", (2,)), ("int8", (2,)), ("int4", (2,)), ("float32", ()), ("float8_e3m4", (2, 3))):
+        d = getattr(ml_dtypes, dt, None) or dt
+        try:
+            x = np.zeros(shape, dtype=d)
+            out.append(bool(isinstance(x, ann)))
+        except Exception as e:
+            out.append("exc:" + type(e).__name__)
+    return out
+"""
 
 
 def run_shard(rec, seed, shard, tier):
@@ -433,6 +460,37 @@ def run_shard(rec, seed, shard, tier):
                     rec.count("roundtrips.two_hops")
                     if out["hop2"] != h0:
                         rec.violation("meaning-changed", dict(case, where="other-process, then pickled again there"), f"{route} -> other process -> pickle there -> load: {expr} accepts differently ({out['hop2']})", mechanism=mech(expr, route, "twohop", "differs"))
+        # a MINIMAL receiving process: it unpickles first (jaxtyping is imported by the unpickler, before jax or
+        # ml_dtypes have been imported by anybody) and only then builds a few probe arrays
+        pj = [(jid, b64) for jid, b64, _ in jobs if jid.endswith("/pickle4")][:40]
+        if pj:
+            probes_src = MINIMAL_PROBES
+            mine = {}
+            nsP = {}
+            exec(probes_src, nsP)
+            for jid, b64 in pj:
+                ann = pickle.loads(base64.b64decode(b64))
+                mine[jid] = nsP["answers"](ann)
+            jf2 = os.path.join(scratch, "jobs_min.json")
+            with open(jf2, "w") as f:
+                json.dump(pj, f)
+            env = dict(os.environ)
+            env["PYTHONPATH"] = os.pathsep.join([os.environ.get("JTV_REPO", "/repo"), scratch])
+            r = subprocess.run([sys.executable, "-c", MINIMAL_CHILD + probes_src + "\nprint(json.dumps({j: answers(a) for j, a in loaded.items()}))\n", jf2], capture_output=True, text=True, env=env, timeout=600)
+            try:
+                theirs = json.loads(r.stdout.strip().splitlines()[-1])
+            except Exception:
+                rec.inconclusive.append(f"minimal child failed: rc={r.returncode} {r.stderr[-300:]}")
+                theirs = {}
+            for jid, _ in pj:
+                if jid not in theirs:
+                    continue
+                rec.count("roundtrips.minimal_receiver")
+                if theirs[jid] != mine[jid]:
+                    expr, route, _v = meta[jid]
+                    bad = next(i for i, (a_, b_) in enumerate(zip(mine[jid], theirs[jid])) if a_ != b_)
+                    rec.violation("meaning-changed", {"expr": expr, "route": route, "where": "minimal receiving process (unpickles before importing jax / ml_dtypes)"}, f"pickle of {expr} loaded in a process that had imported nothing but the standard library: probe {MINIMAL_PROBE_NAMES[bad]} answers {theirs[jid][bad]}, the original answers {mine[jid][bad]}", mechanism=mech(expr, route, "minimal-receiver", "differs"))
+                    break
         rec.sample({"expr": ["ann", "Shaped", ["ann", "Float", "np", "a"], "b"], "routes": ROUTES})
     finally:
         try:
